@@ -3,4 +3,9 @@
 
 package retry
 
+type verifFields struct{}
+
 func (a *asyncFifoRetryImpl) verifStopped() bool { return false }
+
+// verifStopChan is a nil channel without the tag: that select case never fires
+func (a *asyncFifoRetryImpl) verifStopChan() <-chan struct{} { return nil }
